@@ -178,7 +178,9 @@ def run(ctx):
                     taken = {a.text: v for a, v in p.decisions}
                     if not (want in before and taken.get(want) is True):
                         okb = False
-        okb = okb and ncall_b > 0
+        if okb and ncall_b == 0:
+            okb = None      # _split_on no longer calls it on its own paths (the scan moved into a helper written differently): undecided
+        okb = okb and ncall_b > 0 if okb is not None else None
     cond['brace'] = okb
     mock = repo.cls('core.wl.object.MockObject')
     mi = mock.methods.get('__init__')
@@ -187,7 +189,7 @@ def run(ctx):
     f_pc = repo.func('Controller.process_command')
     nops, bad = sanitiser_first(repo, f_pc)
     split_ok = any(isinstance(n, ast.Call) and norm(n.func) == 're.split' for n in f_pc.body_nodes())
-    cond['c17'] = not bad and nops > 0 and split_ok
+    cond['c17'] = (not bad and nops > 0) if split_ok else (False if bad else None)    # tokenised some other way than re.split: the reason does not apply as written - undecided (refuted only when colour is not stripped first)
     # matchers.md rows
     try:
         md = repo.read_text('matchers.md')
